@@ -50,7 +50,7 @@ P = {
  "C10": dict(
   tech="dispatch_ip / dispatch / socket_egress on symbolic packets with a frame-capturing TxToken; harness-side independent well-formedness checks and RFC 1071 reference checksums; reply-source checks in the ingress harnesses",
   text="For UDP, TCP (SYN with MSS+WS+SACK-permitted(+TS), data with TS and a SACK block), ICMPv4 echo and ARP replies with all field values symbolic (Ethernet, MTU 1500, tx checksums on): the captured frame has the exact length, correct Ethernet addresses/ethertype, IPv4 ihl/total length/ttl/protocol/addresses, a header checksum and L4 checksums that verify under an independent reference, TCP data offset and an option list that is well-formed, terminated and zero-padded; every reply built on ingress (RST, ICMP errors, echo replies, NDISC/ARP) has a source that is one of the interface's own unicast addresses.",
-  note="Concrete MTU 1500 and concrete time (symbolic values exhaust 8 GB); payloads 2-4 bytes; IPv6/6LoWPAN frame layout is checked through C20/C06 templates; oversize (fragmented) frames are C12's grid.",
+  note="Concrete MTU 1500 and concrete time (symbolic values exhaust 8 GB); payloads 2-4 bytes; IPv6 packets are checked at emit level (iface_egress6.rs: the IPv6 header and upper-layer octets produced by the emit calls dispatch_ip makes - echo reply, port unreachable incl. the 1280-octet quote rule, neighbor advertisement, MLD report with router alert, UDP from a socket, TCP RST, MSS vs. small MTU; multicast MAC mapping), because whole IPv6 frames through dispatch_ip exceed 16-24 GB; neighbor solicitations and IGMP reports are not covered; 6LoWPAN frame layout is checked through C20/C06 templates; oversize (fragmented) frames are C12's grid.",
   ref="DESIGN.md 5/C10, 13"),
  "C11": dict(
   tech="process_ip / process_ethernet on byte-template packets with fully symbolic IPv4 addresses (32 bits each) and IPv6 addresses (9/4 symbolic octets covering every class), ports, flags, against a harness-side address classification",
@@ -69,7 +69,7 @@ P = {
   ref="DESIGN.md 5/C15"),
  "C03": dict(
   tech="no-panic / termination obligations (Kani's implicit panic, bounds, overflow and unwinding assertions) on every ingress entry point driven with arbitrary bytes or byte templates: process_ip/process_ethernet/process_ieee802154-level harnesses, all wire parsers (shared with C07), DNS/DHCP socket process(), 6LoWPAN decompression and reassembly, tcp::Socket::process from arbitrary invariant states; an echo request answered after a fragment history",
-  text="Per ingress path, decided by the solver for all inputs within the bound: IPv4 and IPv6 packets with every header byte free (raw-IP medium, one socket), Ethernet frames with free header, every checked wire view and Repr::parse on arbitrary bytes up to the per-type bound (C07's harnesses), DNS responses of 25 record layouts and free name bytes, DHCP messages of ten layouts, 6LoWPAN IPHC/NHC prefixes with free bytes and FRAG1/FRAGN headers with any size/offset/addressing, IPv4 reassembly with offsets beyond the buffer, TCP segments in any synchronized state: no panic, no arithmetic overflow, no out-of-bounds access, every loop terminates within its unwinding bound; after two symbolic fragments an echo request is still answered.",
+  text="Per ingress path, decided by the solver for all inputs within the bound: IPv4 and IPv6 packets with every header byte free (raw-IP medium, one socket), Ethernet frames with free header, every checked wire view and Repr::parse on arbitrary bytes up to the per-type bound (C07's harnesses), DNS responses of 25 record layouts and free name bytes, DHCP messages of ten layouts, 6LoWPAN IPHC/NHC prefixes with free bytes and FRAG1/FRAGN headers with any size/offset/addressing, IPv4 reassembly with offsets beyond the buffer, TCP segments in any synchronized state: no panic, no arithmetic overflow, no out-of-bounds access, every loop terminates within its unwinding bound; after two symbolic fragments an echo request is still answered. Multi-frame sequences (iface_seq.rs, single-socket-type configurations): TCP listener, established and SYN-SENT sockets receiving two segments with free TCP header octets; a UDP socket receiving three datagrams with free UDP octets (the last meeting a full buffer); an ICMP socket receiving two ICMP errors with free quotes; Ethernet ARP with all 28 octets free after/before IPv4 frames (neighbor cache fill and eviction); IPv6 UDP pairs; a DHCP client receiving two server messages with free header fields and option values; a complete 6LoWPAN FRAG1 through process_ieee802154 - each followed by a well-formed echo request that must be answered from the interface's own address.",
   note="Decomposed per entry point and per single frame from arbitrary (invariant) state rather than over whole frame sequences; Interface::poll's loop over sockets is exercised with one socket. Frame lengths are bounded per harness (20-96 bytes), not the 1500-byte MTU. Interface-level free-byte harnesses use a concrete IP header (to an own address, any source) and free octets above it, one harness per protocol / next-header value; a fully free IP header and InterfaceInner::process_hopbyhop (IPv6 hop-by-hop options at the interface level) did not fit the solver budget and are covered at the wire level only (C07's views). Several remotely triggerable panics found this way were fixed (known_findings.json).",
   ref="DESIGN.md 5/C03, 14"),
  "C06": dict(
